@@ -28,6 +28,33 @@ let () =
         let corr = (WinCmdline.assemble_cmdline argv = None) && code = "161" in
         let has_nul = Stdlib.List.exists (fun a -> Stdlib.List.exists (fun c -> c = BinNums.N0) a) argv in
         print_endline (b2s corr ^ " " ^ b2s has_nul ^ " " ^ b2s has_nul)
+      | ["splitpath"; p; got] ->
+        let got = if got = "none" then [] else dec_argv got in
+        print_endline (b2s (Str.strs_eqb (Path.split_path (dec_units p)) got))
+      | ["fmtenv"; env; got] ->
+        let got = if got = "none" then [] else dec_argv got in
+        print_endline (b2s (Str.strs_eqb (Env.format_env (dec_env env)) got))
+      | ["prealloc"; cmd; path; cap; longest] ->
+        let cmd = dec_units cmd and sp = (if path = "none" then None else Some (dec_units path)) in
+        let a = int_of_nat (Path.prealloc_capacity cmd sp) and b = int_of_nat (Path.longest_assembled cmd sp) in
+        print_endline (b2s (a = int_of_string cap && b = int_of_string longest) ^ " " ^ string_of_int a ^ " " ^ string_of_int b)
+      | ["c06conf"; argv; exe; env; cwd; path; fs; oargv; oenvp; ocwd; otried; out] ->
+        let strs a = if a = "none" then [] else dec_argv a in
+        let ostr a = if a = "none" then None else Some (dec_units a) in
+        let req = { ExecArgs.r_argv = strs argv; r_exe = ostr exe;
+                    r_env = (if env = "inherit" then None else Some (dec_env env));
+                    r_cwd = ostr cwd; r_path = ostr path } in
+        let fs = if fs = "none" then [] else
+            Stdlib.List.map (fun kv -> match String.split_on_char '=' kv with
+                | [k; "ok"] -> (dec_units k, None)
+                | [k; e] -> (dec_units k, Some (n_of_int (int_of_string e)))
+                | _ -> failwith "fs") (String.split_on_char ',' fs) in
+        let oenvp = if oenvp = "inherit" then None else Some (strs oenvp) in
+        let out = match String.split_on_char ':' out with
+          | ["ran"; p] -> Datatypes.Coq_inl (dec_units p)
+          | ["err"; e] -> Datatypes.Coq_inr (n_of_int (int_of_string e))
+          | _ -> failwith "out" in
+        print_endline (string_of_int (int_of_n (ExecArgs.conforms req fs (strs oargv) oenvp (ostr ocwd) (strs otried) out)))
       | _ -> print_endline "?"
     done
   with End_of_file -> ()
